@@ -17,6 +17,7 @@ Oracle     : the property itself in Python — every operator x operand order x
 import json, copy
 import vlib
 from checks import refs_shared as rs
+from checks import refs_nested as rn
 from checks.refs_shared import gen_pexp, gen_state, pexp_depth, pexp_ops, cpexp, cterm, cstate, cxres, clit, Unrep
 
 RUNNER = "refs_runner.py"
@@ -119,6 +120,11 @@ def run(ctx):
                 "literals on either side, zero divisors), each evaluated under 3 container states (operands changed, sometimes a key removed); "
                 "compared: the structure built (model build over the regenerated tables) and every value/exception class (integer instance); "
                 "(b) in-place dunders x {expression, plain value} x {literal, reference}: structure returned; "
+                "(d) nested layouts: dict/list/tuple/str/numpy-array/object values at three levels, 1..8 definitions on members, on members of "
+                "expression-defined containers and on roots; _expr/_tasks/_find_dependant_targets/_value of ~45 locations and _eval texts vs the "
+                "model (expr_of, tasks_of, dependants, build); ~14 in-place statements per case on locations that own / are members of / are "
+                "siblings of defined locations, judged by inplace_at (own definition else own value) and by the Python oracle, the last one "
+                "really assigned and read back; "
                 "(c) oracle sweep: every binary operator x {ref-ref, ref-lit, lit-ref} x value pairs from ints/floats/bools/complex/numpy "
                 "scalars/arrays/raisers, unary ops, abs/round/round(x,n)/divmod/trunc/floor/ceil, calls, item/attr access, in-place statements, "
                 "deferred vs direct by value and type; non-trivial = a tree of depth >= 2 whose value was really compared by the integer "
@@ -218,6 +224,32 @@ def run(ctx):
             coq_ok = False
     ctx.evaluations += 2 * len(icases)
 
+    # ---- (d) nested layouts: manager-consulting properties and in-place at every level ---------
+    ncases = [rn.gen_case(ctx.rng) for _ in range(ctx.pick(160, 4000))]
+    nres, noracle, ndiff, nitems, nidx, eitems, nprobes, nstmts = rn.run_stream(ctx, ids, ncases, "n")
+    nmism, emism = [], []
+    if coq_ok:
+        try:
+            mm, _ = rs.eval_chunks(ctx, nitems, "c04ncase", "c04n_mismatches", "n", per=12)
+            nmism = [nidx[k] for k in mm]
+            mm, _ = rs.eval_chunks(ctx, eitems, "c04case", "c04_mismatches", "e", per=200)
+            emism = mm
+        except vlib.InfraError as e:
+            if proof_ok:
+                raise
+            coq_ok = False
+    rel_hist = {}
+    for c, r in zip(ncases, nres["compiled"]):
+        if "setup_error" in r:
+            continue
+        for st, sr in zip(c["stmts"], r["stmts"]):
+            if "returned" in sr:
+                key = rn.relation_of(c, st) + "/" + st["kind"]
+                rel_hist[key] = rel_hist.get(key, 0) + 1
+                ctx.nontrivial.add("nested:" + key + "/" + st["op"])
+    ctx.evaluations += 2 * (nprobes + nstmts + len(eitems))
+    ctx.traces += 2 * len(ncases)
+
     # ---- (c) the oracle sweep ---------------------------------------------------------------
     nsweep, kinds, sfails = sweep(ctx, ids, ctx.pick(0.35, 1.0))
     ctx.evaluations += nsweep
@@ -228,12 +260,19 @@ def run(ctx):
                                      "results_observed": errs, "states_compared_by_integer_instance": compared,
                                      "states_total": sum(len(c["states"]) for c in cases),
                                      "inplace_cases": len(icases), "inplace_compared": len(iitems),
-                                     "sweep_cases_per_build": nsweep // 2, "sweep_kinds": kinds}
+                                     "sweep_cases_per_build": nsweep // 2, "sweep_kinds": kinds,
+                                     "nested_cases": len(ncases), "nested_setup_errors": sum(1 for r in nres["compiled"] if "setup_error" in r),
+                                     "nested_probes_compared": nprobes, "nested_inplace_statements_compared": nstmts,
+                                     "nested_eval_texts": len(eitems), "nested_statement_relation_x_value_kind": rel_hist}
     ctx.samples = [{"pexp": cases[0]["pexp"], "built": res["compiled"][0].get("term"), "values": res["compiled"][0].get("values")},
                    {"inplace": icases[0], "observed": ires["compiled"][0]}]
     ctx.obligations.append(("correspondence: structure built and values = model (build over GenRefs.v, integer instance), both builds",
                             coq_ok and not mism and not build_diff, f"{len(mism)} mismatching trees, {len(build_diff)} differing between builds, {compared} states compared"))
     ctx.obligations.append(("correspondence: what the in-place dunders return = model inplace", coq_ok and not imism, f"{len(imism)} mismatching of {len(iitems)}"))
+    ctx.obligations.append(("correspondence (nested layouts): _expr/_tasks/_find_dependant_targets = model, in-place results = inplace_at, _eval = build; both builds agree",
+                            coq_ok and not nmism and not emism and not ndiff, f"{len(nmism)} mismatching cases of {len(nitems)}, {len(emism)} _eval texts, {len(ndiff)} differing between builds"))
+    ctx.obligations.append(("oracle (nested layouts): in-place result built from the location's own definition else its own value; _expr = task registered under the reference; _value = container content (both builds)",
+                            not noracle, f"{len(noracle)} failing of {len(ncases)}"))
     ctx.obligations.append(("oracle: deferred value = direct Python evaluation on every random tree and state (both builds)", not oracle_fail, f"{len(oracle_fail)} failing"))
     ctx.obligations.append(("oracle sweep: operator x operand order x value samples, builtins, calls, access, in-place (both builds)", not sfails, f"{len(sfails)} failing of {nsweep}"))
     ctx.obligations.append(("every class met is known to the translator", not unknown, ", ".join(unknown)))
@@ -244,13 +283,19 @@ def run(ctx):
         vlib.violation(ctx, {"kind": "sweep", "what": "deferred evaluation differs from direct Python evaluation",
                              "case": f["case"], "why": f["why"], "build": f["build"], "other_failures": len(sfails),
                              "more": [x["case"] for x in sfails[1:6]], "how_to_replay": "./check C04 --replay <this file>"})
+    elif noracle:
+        i, b = noracle[0]
+        small = rn.shrink(ncases[i], ids, b)
+        bad, r = rn.case_fails(small, ids, b)
+        vlib.violation(ctx, {"kind": "nested", "what": "in-place operator / derived property of a location not determined by the location's own definition and value",
+                             "build": b, "case": small, "problems": r.get("oracle"), "how_to_replay": "./check C04 --replay <this file>"})
     elif oracle_fail:
         i, b = oracle_fail[0]
         small = shrink_tree(cases[i], ids, b)
         bad, r = tree_fails(small, ids, b)
         vlib.violation(ctx, {"kind": "tree", "what": "deferred evaluation differs from direct Python evaluation", "build": b,
                              "case": small, "observed": r, "how_to_replay": "./check C04 --replay <this file>"})
-    elif mism or imism or build_diff or unknown or not proof_ok or not coq_ok:
+    elif mism or imism or nmism or emism or ndiff or build_diff or unknown or not proof_ok or not coq_ok:
         what = list(getattr(ctx, "broken", []))
         if mism:
             i = mism[0]
@@ -259,12 +304,25 @@ def run(ctx):
             what.append(f"in-place correspondence broke on {len(imism)} cases, first: {json.dumps(icases[imism[0]])} observed={json.dumps(ires['compiled'][imism[0]])}")
         if build_diff:
             what.append(f"compiled and pure builds differ on {len(build_diff)} cases, first index {build_diff[0]}")
+        if nmism:
+            i = nmism[0]
+            what.append(f"nested-layout correspondence broke on {len(nmism)} cases, first: defs={json.dumps(ncases[i]['defs'])} observed={json.dumps(nres['compiled'][i])[:1500]}")
+        if emism:
+            what.append(f"_eval correspondence broke on {len(emism)} texts")
+        if ndiff:
+            what.append(f"compiled and pure builds differ on {len(ndiff)} nested cases, first: {json.dumps(ncases[ndiff[0]]['defs'])}")
         if unknown:
             what.append("classes/functions unknown to the translator: " + ", ".join(unknown))
         # search harder: the full sweep and more trees with the direct-evaluation oracle
         n2, kinds2, sf2 = sweep(ctx, ids, 1.0)
         extra = [gen_tree_case(ctx.rng) for _ in range(3000)]
         found = None
+        nfound = None
+        if nmism or emism or ndiff:
+            nextra = [rn.gen_case(ctx.rng) for _ in range(1500)]
+            _, no2, _, _, _, _, _, _ = rn.run_stream(ctx, ids, nextra, "n2")
+            if no2:
+                nfound = (nextra[no2[0][0]], no2[0][1])
         if not sf2:
             parts = list(vlib.chunks(extra, 200))
             both2 = rs.run_both([{"mode": "c04", "classes": classes, "fns": fns, "cases": p} for p in parts])
@@ -275,7 +333,11 @@ def run(ctx):
                         if found is None and any(o is not None for o in r.get("oracle", [])):
                             found = (extra[k], b)
                         k += 1
-        if sf2:
+        if nfound:
+            small = rn.shrink(nfound[0], ids, nfound[1])
+            bad, r = rn.case_fails(small, ids, nfound[1])
+            vlib.violation(ctx, {"kind": "nested", "build": nfound[1], "case": small, "problems": r.get("oracle"), "also_broken": what})
+        elif sf2:
             f = sf2[0]
             vlib.violation(ctx, {"kind": "sweep", "what": "deferred evaluation differs from direct Python evaluation",
                                  "case": f["case"], "why": f["why"], "build": f["build"], "also_broken": what})
@@ -301,6 +363,9 @@ def replay(ctx, data):
             r = vlib.run_impl(RUNNER, {"mode": "c04case", "case": case}, build=b)
             print(b, json.dumps(r["why"]))
             bad = r["why"] is not None
+        elif data.get("kind") == "nested":
+            bad, r = rn.case_fails(case, (classes, fns), b)
+            print(b, json.dumps(r.get("oracle")))
         else:
             bad, r = tree_fails(case, (classes, fns), b)
             print(b, json.dumps(r))
